@@ -260,6 +260,16 @@ def run_case(case):
             bad('trunk', 'trunk stamps are not step 0')
     if rec.events.count('trunk') != 1 or not (tab.flag.TRUNK_BUILT in tab.flag):
         bad('trunk', 'AFTER_TRUNK_BUILD not emitted once')
+    # "the trunk holds exactly the premises and the conclusion": a refused re-assignment of the argument after the trunk is
+    # built must leave the tableau's argument the one the trunk was built from
+    try:
+        from pytableaux.lang import Argument as _Arg, Atomic as _At
+        tab.argument = _Arg(_At(4, 9))
+        bad('trunk', 'the argument was re-assigned after the trunk was built')
+    except Exception:
+        pass
+    if tab.argument != arg or len(tab) != 1:
+        bad('trunk', 'after a refused re-assignment the tableau no longer carries the argument its trunk was built from')
     effects.append(['T', len(tab[0]) if len(tab) else 0])
     check_state(None, v)
     fps.append(rec.fp(v))
@@ -272,14 +282,38 @@ def run_case(case):
         hlen = len(tab.history)
         cs0 = tab.current_step
         rec.events.clear()
-        try:
+        if len(effects) - 1 < case.get('direct_first', 0):
+            # the rule is applied through the public rule API (rule.target / rule.apply), not through step():
+            # the application is still recorded once, with that rule and target
+            picked = None
+            for rule_ in tab.rules:
+                for b_ in tab.open:
+                    t_ = rule_.target(b_)
+                    if t_:
+                        picked = (rule_, t_)
+                        break
+                if picked:
+                    break
+            if picked is None:
+                entry = tab.step()
+                if entry is None:
+                    break
+            else:
+                picked[0].apply(picked[1])
+                if len(tab.history) != hlen + 1 or tab.history[-1].rule is not picked[0]:
+                    bad('history', f'a rule applied directly ({picked[0].name}) was not recorded as one step with that rule')
+                    break
+                entry = tab.history[-1]
+                cs0 = tab.current_step - 1 if tab.current_step == cs0 + 1 else cs0
+        else:
+          try:
             entry = tab.step()
-        except Exception as e:  # noqa
+          except Exception as e:  # noqa
             if case.get('fake_timeout') and type(e).__name__ == 'ProofTimeoutError':
                 timed_out = True
                 break
             raise
-        if entry is None:
+          if entry is None:
             break
         rule, target = entry.rule, entry.target
         try:
